@@ -483,7 +483,25 @@ fn enc_class(e: &png::EncodingError) -> String {
     match e {
         png::EncodingError::Format(f) => {
             let m = f.to_string();
-            if m.contains("cannot be encoded into valid ISO 8859-1") {
+            // the variant name from the Debug form first (a reworded message does not change it), the Display text as a fall-back
+            let dbg = format!("{:?}", f);
+            if dbg.contains("BadTextEncoding(Unrepresentable)") {
+                "err:unrepresentable".into()
+            } else if dbg.contains("BadTextEncoding(InvalidKeywordSize)") {
+                "err:invalidKeywordSize".into()
+            } else if dbg.contains("BadTextEncoding(CompressionError)") {
+                "err:compressionError".into()
+            } else if dbg.contains("OutOfBounds") {
+                "err:outOfBounds".into()
+            } else if dbg.contains("ZeroWidth") {
+                "err:zeroWidth".into()
+            } else if dbg.contains("ZeroHeight") {
+                "err:zeroHeight".into()
+            } else if dbg.contains("ZeroFrames") {
+                "err:zeroFrames".into()
+            } else if dbg.contains("NotAnimated") {
+                "err:notAnimated".into()
+            } else if m.contains("cannot be encoded into valid ISO 8859-1") {
                 "err:unrepresentable".into()
             } else if m.contains("Invalid keyword size") {
                 "err:invalidKeywordSize".into()
